@@ -177,7 +177,7 @@ def run(ctx, tasks=None):
     names = sorted(fn for fn in os.listdir(d) if os.path.isfile(os.path.join(d, fn)) and os.path.getsize(os.path.join(d, fn)) < 400000)
     rng = ctx.rng
     if tasks is None:
-        per = ctx.budget(12, 150)
+        per = ctx.budget(60, 400)
         tasks = [(n, rng.randrange(1 << 30)) for n in names for _ in range(per)]
         # corpus of minimised past failures first
         corpus = os.path.join(ctx.verif, "harness", "gen", "corpus", "c04.txt")
